@@ -376,6 +376,9 @@ def run_check(prop, tier, seed):
             for extra in range(1, 5):
                 batches.append(("debug-seed+%d" % extra, cfg["cases"](seed + extra, "quick")))
             cov["seeds"] = [seed] + [seed + e_ for e_ in range(1, 5)]
+        for _, cs_ in batches:
+            for c_ in cs_:
+                families.normalise_case(c_)
         for profile, cs in batches:
             impl, mod, iprob, mprob = runner.run_both(cs, "%s.%s" % (prop, profile.replace("+", "p")), release=(profile == "release"),
                                                       model=cfg.get("model", True), timeout=cfg.get("timeout", 900))
